@@ -320,6 +320,15 @@ inductive SState where
 /-- The generator the server uses (`g := 3` in `ServerExchange.Run`). -/
 def serverG : Nat := Facts.C09.serverG
 
+/-- The acceptance test of `TestServerRNG.GA`'s draw loop: `1 < g_a < p − 1` and
+`2^1984 < g_a < p − 2^1984` for `g_a = g^a mod p`. -/
+def gaOK (p a : Nat) : Bool :=
+  inRange (powMod serverG a p) 1 (p - 1) && inRange (powMod serverG a p) safetyMin (p - safetyMin)
+
+/-- `TestServerRNG.GA`: `a` is re-drawn until `g_a` passes `gaOK`; `draws` = the successive
+256-byte draws of the server's random stream. -/
+def pickA (p : Nat) (draws : List Nat) : Option Nat := draws.find? (gaOK p)
+
 def sstep {Ct} (P : XP Ct) (cfg : SCfg) (t : STape) : SState → Msg Ct → SState × Option (Msg Ct)
   | .waitReqPQ, .reqPQ n => (.waitReqDH n, some (.resPQ n t.serverNonce t.pq [cfg.fp]))
   | .waitReqPQ, _ => (.failed .junk, none)
